@@ -41,6 +41,12 @@
 (*    answer (or its error); whether that answer is right is Sound's job;  *)
 (*  - the allow list is absent (no ClusterRole configured, or the object   *)
 (*    does not exist) = nothing is allowed.                                *)
+(* History independence: the validator families are also run on ONE       *)
+(* long-lived validator (scenario ids ".../chained") whose allow list is   *)
+(* edited in place between vectors, and the provider family with an earlier *)
+(* reconcile of the same reconciler under another allow list (pre="wide"): *)
+(* the same formulas must hold - the answer depends on the current allow   *)
+(* list only, never on what was validated before.                          *)
 (* Information only (INFO lines, never a violation):                       *)
 (*  Completeness     rejected although Kubernetes' Covers holds            *)
 (*  Drift.Granted / Drift.Expand / Drift.SystemRole  the real outcome      *)
@@ -85,7 +91,9 @@ AllOrNone(e) == (IsProv(e) /\ (Len(e.out.rejected) > 0 \/ e.out.err # "")) => Ap
 AllowedRes(e) == Defined(Self(e).refs) \cup UNION {Defined(m.refs) : m \in {x \in Members(e) : IsMember(Self(e), x)}}
 \* requests may appear in the role only if the validator let them pass
 AllowedReqs(e) == IF ValidatorGranted(e) THEN Reqs(e) ELSE {}
-SystemRole(e) == IsProv(e) => \A r \in OwnRoles(e, "system") :
+\* (pre = "wide": the stored roles were written by an earlier reconcile under a wider allow list; when the requests are
+\* rejected now, nothing may be written - AllOrNone - and the stored roles are the earlier ones, not judged here)
+SystemRole(e) == (IsProv(e) /\ ~(e.input.pre = "wide" /\ ~ValidatorGranted(e))) => \A r \in OwnRoles(e, "system") :
                    DenSubset(RulesOf(r.rules), SystemAllowed(AllowedRes(e), AllowedReqs(e)))
 SystemRoleRender(e) == IsProv(e) => \A i \in DOMAIN e.out.rendered : e.out.rendered[i].kind = "system" =>
                    DenSubset(RulesOf(e.out.rendered[i].rules), SystemAllowed(Defined(Self(e).refs), Reqs(e)))
